@@ -66,7 +66,42 @@ static VT: RawWakerVTable = RawWakerVTable::new(
     },
 );
 
-fn manual_waker() -> (Waker, &'static Slot) {
+/// A caller whose waker keeps its state in a static and hands out a NULL data pointer (single-task
+/// executors do this). One such caller exists at a time: executions using it hold NULL_LOCK.
+static NULL_SLOT: std::sync::atomic::AtomicPtr<Slot> = std::sync::atomic::AtomicPtr::new(std::ptr::null_mut());
+static NULL_LOCK: Mutex<()> = Mutex::new(());
+
+fn null_slot() -> &'static Slot {
+    unsafe { &*NULL_SLOT.load(SeqCst) }
+}
+
+static VTN: RawWakerVTable = RawWakerVTable::new(
+    |p| {
+        assert!(p.is_null());
+        let s = null_slot();
+        s.touch();
+        s.refs.fetch_add(1, SeqCst);
+        RawWaker::new(std::ptr::null(), &VTN)
+    },
+    |_| {
+        let s = null_slot();
+        s.touch();
+        s.wakes.fetch_add(1, SeqCst);
+        s.dec();
+    },
+    |_| {
+        let s = null_slot();
+        s.touch();
+        s.wakes.fetch_add(1, SeqCst);
+    },
+    |_| {
+        let s = null_slot();
+        s.touch();
+        s.dec();
+    },
+);
+
+fn manual_waker(null_data: bool) -> (Waker, &'static Slot) {
     let slot: &'static Slot = Box::leak(Box::new(Slot {
         refs: AtomicI64::new(1),
         wakes: AtomicU64::new(0),
@@ -74,7 +109,12 @@ fn manual_waker() -> (Waker, &'static Slot) {
         touched_after_release: AtomicBool::new(false),
         below_start: AtomicBool::new(false),
     }));
-    (unsafe { Waker::from_raw(RawWaker::new(slot as *const Slot as *const (), &VT)) }, slot)
+    if null_data {
+        NULL_SLOT.store(slot as *const Slot as *mut Slot, SeqCst);
+        (unsafe { Waker::from_raw(RawWaker::new(std::ptr::null(), &VTN)) }, slot)
+    } else {
+        (unsafe { Waker::from_raw(RawWaker::new(slot as *const Slot as *const (), &VT)) }, slot)
+    }
 }
 
 // ------------------------------------------------------------------------------------------
@@ -90,6 +130,9 @@ enum Act {
     Wake(usize),
     WakeByRef(usize),
     Drop(usize),
+    /// the caller drops its own waker (only outside a poll, once; no poll follows): the task lives on
+    /// through the wakers handed out, as with a spawn-and-detach executor
+    DropCaller,
 }
 
 #[derive(Clone, Copy, Debug, Serialize, Deserialize, PartialEq, Eq, Hash)]
@@ -120,6 +163,7 @@ struct World {
     families: usize,
     pending: Vec<Act>,
     wake_ops: u64,
+    caller_dropped: bool,
 }
 
 impl World {
@@ -152,6 +196,7 @@ impl World {
                 let (w, _) = self.wakers.remove(i);
                 drop(w);
             }
+            Act::DropCaller => unreachable!("handled by the driver"),
         }
     }
 }
@@ -209,6 +254,8 @@ struct Sut {
     kind: Kind,
     max_wakers: usize,
     threads: bool,
+    /// the caller's waker has a null data pointer (state in a static)
+    null_data: bool,
 }
 
 type V = Result<(), (String, String)>;
@@ -216,20 +263,29 @@ type V = Result<(), (String, String)>;
 fn oracle(slot: &Slot, world: &World, at: &dyn Fn(&str) -> String) -> V {
     let refs = slot.refs.load(SeqCst);
     let wakes = slot.wakes.load(SeqCst);
-    if slot.below_start.load(SeqCst) || refs < 1 {
-        return Err(("waker:over_release".into(), at(&format!("the caller's waker was released more often than it was cloned (refcount {} with the caller's own handle alive)", refs))));
+    // the caller's own handle counts 1 while it is alive
+    let base: i64 = if world.caller_dropped { 0 } else { 1 };
+    if slot.below_start.load(SeqCst) || refs < base {
+        return Err(("waker:over_release".into(), at(&format!("the caller's waker was released more often than it was cloned (refcount {}, the caller's own handle accounting for {})", refs, base))));
+    }
+    if slot.touched_after_release.load(SeqCst) {
+        return Err(("waker:use_after_release".into(), at("the caller's waker was used (cloned, woken or dropped) after its last reference had been released")));
+    }
+    // every live foreign-side family holds the caller's waker: it must not have been released yet
+    if !world.wakers.is_empty() && slot.released.load(SeqCst) {
+        return Err(("waker:released_early".into(), at("foreign-side wakers are still alive but the last reference to the caller's waker has been released")));
     }
     if wakes != world.wake_ops {
         return Err(("waker:wake_count".into(), at(&format!("{} wake operation(s) performed on the foreign side, caller's waker woken {} time(s)", world.wake_ops, wakes))));
     }
-    if world.wakers.is_empty() && world.pending.is_empty() && refs != 1 {
-        return Err(("waker:leak".into(), at(&format!("no foreign-side waker is left but the caller's refcount is {} (start value 1)", refs))));
+    if world.wakers.is_empty() && world.pending.is_empty() && refs != base {
+        return Err(("waker:leak".into(), at(&format!("no foreign-side waker is left but the caller's refcount is {} (expected {})", refs, base))));
     }
     Ok(())
 }
 
 impl Sut {
-    fn enabled(&self, n: usize, last_in: bool) -> Vec<Op> {
+    fn enabled(&self, n: usize, last_in: bool, caller_dropped: bool) -> Vec<Op> {
         let mut acts_in = vec![];
         if n < self.max_wakers {
             acts_in.push(Act::CloneCx);
@@ -245,16 +301,21 @@ impl Sut {
             common.push(Act::Drop(i));
         }
         let mut v = Vec::new();
-        for a in acts_in.iter().chain(common.iter()) {
-            v.push(Op::In(*a));
-        }
-        if last_in {
+        if !caller_dropped {
             for a in acts_in.iter().chain(common.iter()) {
-                v.push(Op::InCont(*a));
+                v.push(Op::In(*a));
+            }
+            if last_in {
+                for a in acts_in.iter().chain(common.iter()) {
+                    v.push(Op::InCont(*a));
+                }
             }
         }
         for a in &common {
             v.push(Op::Out(*a));
+        }
+        if !caller_dropped && n > 0 {
+            v.push(Op::Out(Act::DropCaller));
         }
         if self.threads {
             for a in &common {
@@ -264,8 +325,10 @@ impl Sut {
         v
     }
 
-    fn exec(&self, hist: &[Op], obs: &mut Vec<u64>) -> Result<(u64, usize, bool), (String, String)> {
-        let (waker, slot) = manual_waker();
+    fn exec(&self, hist: &[Op], obs: &mut Vec<u64>) -> Result<(u64, usize, bool, bool), (String, String)> {
+        let _serial = if self.null_data { Some(NULL_LOCK.lock().unwrap_or_else(|e| e.into_inner())) } else { None };
+        let (waker, slot) = manual_waker(self.null_data);
+        let mut waker = Some(waker);
         let world = Arc::new(Mutex::new(World::default()));
         // group the history into polls / outside actions
         enum Grp {
@@ -293,12 +356,16 @@ impl Sut {
                     match g {
                         Grp::Poll(acts) => {
                             world.lock().unwrap().pending = acts.clone();
-                            let mut cx = Context::from_waker(&waker);
+                            let mut cx = Context::from_waker(waker.as_ref().expect("no poll after the caller dropped its waker"));
                             let pinned = Pin::new(&mut obj);
                             let pending = $poll(pinned, &mut cx);
                             if !pending {
                                 return Err(("waker:poll_result".into(), at("the scripted Pending did not come back as Pending")));
                             }
+                        }
+                        Grp::Out(Act::DropCaller) => {
+                            drop(waker.take().expect("caller's waker dropped twice"));
+                            world.lock().unwrap().caller_dropped = true;
                         }
                         Grp::Out(a) => world.lock().unwrap().apply(*a, None),
                         Grp::Thread(a) => {
@@ -354,7 +421,7 @@ impl Sut {
             let pos: Vec<usize> = w.wakers.iter().map(|x| x.1).collect();
             let mut relabel: Vec<usize> = Vec::new();
             let norm: Vec<usize> = pos.iter().map(|f| { if let Some(p) = relabel.iter().position(|x| x == f) { p } else { relabel.push(*f); relabel.len() - 1 } }).collect();
-            digest(&(fam, norm, slot.refs.load(SeqCst), last_in))
+            digest(&(fam, norm, slot.refs.load(SeqCst), last_in, w.caller_dropped))
         };
         // ---- teardown: drop every remaining foreign waker, then the caller's own
         {
@@ -362,13 +429,15 @@ impl Sut {
             while !w.wakers.is_empty() {
                 let (x, _) = w.wakers.remove(0);
                 drop(x);
-                if slot.below_start.load(SeqCst) || slot.refs.load(SeqCst) < 1 {
+                let base = if w.caller_dropped { 0 } else { 1 };
+                if slot.below_start.load(SeqCst) || slot.refs.load(SeqCst) < base {
                     return Err(("waker:over_release".into(), format!("teardown: dropping the remaining foreign wakers released the caller's waker too often (refcount {})", slot.refs.load(SeqCst))));
                 }
             }
         }
         let at = |what: &str| format!("teardown: {}", what);
         oracle(slot, &world.lock().unwrap(), &at)?;
+        let caller_dropped = waker.is_none();
         drop(waker);
         if slot.refs.load(SeqCst) != 0 {
             return Err(("waker:leak".into(), format!("after the caller dropped its own waker the refcount is {}", slot.refs.load(SeqCst))));
@@ -376,7 +445,7 @@ impl Sut {
         if slot.touched_after_release.load(SeqCst) {
             return Err(("waker:use_after_release".into(), "the caller's waker was touched after its last reference was released".into()));
         }
-        Ok((key, n, last_in))
+        Ok((key, n, last_in, caller_dropped))
     }
 }
 
@@ -389,13 +458,13 @@ impl HistSut for Sut {
         match r {
             Err(_) => StepOut { key: 0, enabled: vec![], obs: obs_d, violation: Some(("panic".into(), "panicked".into())) },
             Ok(Err(v)) => StepOut { key: 0, enabled: vec![], obs: obs_d, violation: Some(v) },
-            Ok(Ok((key, n, last_in))) => StepOut { key, enabled: self.enabled(n, last_in), obs: obs_d, violation: None },
+            Ok(Ok((key, n, last_in, cd))) => StepOut { key, enabled: self.enabled(n, last_in, cd), obs: obs_d, violation: None },
         }
     }
 }
 
 fn kind_of(name: &str) -> Kind {
-    match name.trim_end_matches("_bfs") {
+    match name.trim_end_matches("_bfs").trim_end_matches("_nulldata") {
         "future" => Kind::Future,
         "stream" => Kind::Stream,
         "sink_ready" => Kind::SinkReady,
@@ -407,23 +476,25 @@ fn kind_of(name: &str) -> Kind {
 fn main() {
     std::panic::set_hook(Box::new(|_| {}));
     let mut sections = Vec::new();
-    for name in ["future", "stream", "sink_ready", "sink_flush", "sink_close"] {
+    for name in ["future", "stream", "sink_ready", "sink_flush", "sink_close", "future_nulldata", "sink_flush_nulldata"] {
         let kind = kind_of(name);
+        let null_data = name.ends_with("_nulldata");
         sections.push(Section {
             name,
             explore: Box::new(move |cx: &Cx| {
-                let (mw, d) = match (cx.tier, kind) {
-                    (Tier::Quick, Kind::Future) => (3, 4),
-                    (Tier::Quick, _) => (2, 3),
-                    (Tier::Thorough, Kind::Future) => (3, 5),
-                    (Tier::Thorough, _) => (3, 4),
+                let (mw, d) = match (cx.tier, kind, null_data) {
+                    (Tier::Quick, Kind::Future, false) => (3, 4),
+                    (Tier::Quick, _, _) => (2, 3),
+                    (Tier::Thorough, Kind::Future, false) => (3, 5),
+                    (Tier::Thorough, _, _) => (3, 4),
                 };
-                cx.rule(name, &format!("all histories of length <= {} over {{clone/wake_by_ref of cx.waker() inside a poll; clone, wake, wake_by_ref, drop of any live foreign-side waker — inside a new poll, inside the same poll as the previous action, after the poll on the polling thread, after the poll on another OS thread}} with <= {} live foreign wakers, the object being a scripted implementor behind trait_obj!(.. as {:?}); oracle after every step: caller woken exactly once per wake operation, caller's refcount never below its start value, back at the start value whenever no foreign waker is left; teardown: refcount 0 after the caller drops its own handle, nothing touches it afterwards", d, mw, kind));
-                hist::full(&Sut { kind, max_wakers: mw, threads: true }, d, cx, name);
+                let pre = if null_data { "the caller's waker has a NULL data pointer (its state lives in a static); " } else { "" };
+                cx.rule(name, &format!("{}all histories of length <= {} over {{clone/wake_by_ref of cx.waker() inside a poll; clone, wake, wake_by_ref, drop of any live foreign-side waker — inside a new poll, inside the same poll as the previous action, after the poll on the polling thread, after the poll on another OS thread; the caller dropping its own waker while foreign-side wakers are alive (no poll afterwards)}} with <= {} live foreign wakers, the object being a scripted implementor behind trait_obj!(.. as {:?}); oracle after every step: caller woken exactly once per wake operation, caller's refcount never below its start value, back at the start value whenever no foreign waker is left; teardown: refcount 0 after the caller drops its own handle, nothing touches it after its last reference is released, it is not released while a foreign-side waker is alive", pre, d, mw, kind));
+                hist::full(&Sut { kind, max_wakers: mw, threads: true, null_data }, d, cx, name);
             }),
             replay: Box::new(move |case: &Value| {
                 let h: Vec<Op> = serde_json::from_value(case["history"].clone()).unwrap();
-                let o = Sut { kind, max_wakers: 8, threads: true }.run(&h);
+                let o = Sut { kind, max_wakers: 8, threads: true, null_data }.run(&h);
                 CaseOut { obs: o.obs, nontrivial: true, violation: o.violation }
             }),
         });
@@ -433,11 +504,11 @@ fn main() {
         explore: Box::new(|cx: &Cx| {
             let (mw, d) = cx.tier.pick((3, 7), (4, 9));
             cx.rule("future_bfs", &format!("same alphabet without the OS-thread variants, <= {} live foreign wakers, BFS to depth {} with dedup on (family sizes, family of each position, caller refcount, may-continue-poll flag)", mw, d));
-            hist::bfs(&Sut { kind: Kind::Future, max_wakers: mw, threads: false }, d, cx, "future_bfs", 2_000_000);
+            hist::bfs(&Sut { kind: Kind::Future, max_wakers: mw, threads: false, null_data: false }, d, cx, "future_bfs", 2_000_000);
         }),
         replay: Box::new(|case: &Value| {
             let h: Vec<Op> = serde_json::from_value(case["history"].clone()).unwrap();
-            let o = Sut { kind: Kind::Future, max_wakers: 8, threads: true }.run(&h);
+            let o = Sut { kind: Kind::Future, max_wakers: 8, threads: true, null_data: false }.run(&h);
             CaseOut { obs: o.obs, nontrivial: true, violation: o.violation }
         }),
     });
